@@ -139,6 +139,40 @@ class Rewriter:
             self.log.append(('R0b', '%s!(%s) -> obligation' % (name, ', '.join(args[:2]))))
             text = text[:mm.start()] + rep + text[end:]
 
+    # ---------------------------------------------------------------- R8
+    def strip_avx2(self, text):
+        """R8: statements / struct-literal fields / struct fields guarded by #[cfg(target_feature = "avx2")] are removed
+        (the AVX2 variants are NOT verified); #[cfg(not(target_feature = "avx2"))] guards are dropped, their item kept."""
+        while True:
+            m = mask(text)
+            mm = re.search(r'#\[cfg\(target_feature\s*=\s*"[^"]*"\)\]\s*', text)
+            if not mm:
+                break
+            # the guarded item: up to the next `;` or `,` at depth 0, or a balanced block
+            k, depth = mm.end(), 0
+            while k < len(m):
+                ch = m[k]
+                if ch in '([{':
+                    depth += 1
+                elif ch in ')]}':
+                    if depth == 0:
+                        break
+                    depth -= 1
+                    if depth == 0 and ch == '}' and re.match(r'\s*(unsafe|fn|pub|let\s+\w+\s*=\s*unsafe)', text[mm.end():mm.end() + 40]) and not re.match(r'\s*let', text[mm.end():mm.end() + 8]):
+                        k += 1
+                        break
+                elif ch in ';,' and depth == 0:
+                    k += 1
+                    break
+                k += 1
+            self.log.append(('R8', 'cfg(avx2) item removed: ' + ' '.join(text[mm.end():k].split())[:60]))
+            text = text[:mm.start()] + text[k:]
+        n = len(re.findall(r'#\[cfg\(not\(target_feature\s*=\s*"[^"]*"\)\)\]\s*', text))
+        if n:
+            self.log.append(('R8', 'cfg(not(avx2)) guard dropped x%d (portable item kept)' % n))
+            text = re.sub(r'#\[cfg\(not\(target_feature\s*=\s*"[^"]*"\)\)\]\s*', '', text)
+        return text
+
     # ---------------------------------------------------------------- R12
     def format_macros(self, text):
         """R12: `format!(..)` only ever builds error-message text here; it becomes an opaque String producer."""
@@ -295,6 +329,22 @@ class Rewriter:
                     body = self._with_step(body, '__i_%s += 1;' % x)
                     return ('let __ms_%s = %s.%s(%s);\n            let mut __i_%s: usize = 0;\n            while __i_%s < __ms_%s.len() {\n                let %s = &__ms_%s[__i_%s];%s    __i_%s += 1;\n            }' %
                             (x, recv, vecfn, args, x, x, x, x, x, x, body, x))
+                text = self._rewrite_counted(text, hdr, build)
+            elif frag.startswith('zip:'):
+                # R14: for (A, B) in X.iter().zip(Y) { body } -> index loop up to the shorter length
+                hdr = r'\bfor\s*\(\s*(&?)\s*(\w+)\s*,\s*(&?)\s*(\w+)\s*\)\s*in\s+(.+?)\.iter\(\)\.zip\((.+?)\)\s*\{'
+
+                def build(mm, body):
+                    a_amp, a, b_amp, b, x, y = mm.group(1), mm.group(2), mm.group(3), mm.group(4), mm.group(5).strip(), mm.group(6).strip()
+                    y2 = y[1:].strip() if y.startswith('&') else y
+                    self.n_zip = getattr(self, 'n_zip', 0) + 1
+                    iv = '__i_zip%d' % self.n_zip
+                    self.log.append(('R14', 'for (%s%s, %s%s) in %s.iter().zip(%s) -> index loop %s' % (a_amp, a, b_amp, b, x, y, iv)))
+                    bind_a = ('let %s = %s[%s];' % (a, x, iv)) if a_amp else ('let %s = &%s[%s];' % (a, x, iv))
+                    bind_b = ('let %s = %s[%s];' % (b, y2, iv)) if b_amp else ('let %s = &%s[%s];' % (b, y2, iv))
+                    body = self._with_step(body, '%s += 1;' % iv)
+                    return ('let mut %s: usize = 0;\n        while %s < %s.len() && %s < %s.len() {\n            %s\n            %s%s    %s += 1;\n        }' %
+                            (iv, iv, x, iv, y2, bind_a, bind_b, body, iv))
                 text = self._rewrite_counted(text, hdr, build)
             else:
                 raise SrcError('unknown loop rule ' + frag)
